@@ -721,3 +721,26 @@ pub fn c14_durations(m: &mut DM, g: &DurGen, rng: &mut Rng, thorough: bool) {
         m.snap(rng.below(3) as u8, s);
     }
 }
+
+/// A small fixed trace over all event kinds of the Duration machine, kept in one shard
+/// (used by `bin/check selftest` to demonstrate that corrupted traces are rejected).
+pub fn selftest(rec: &mut Rec, lm: &Landmarks, rng: &mut Rng) {
+    let g = DurGen::new(lm);
+    let mut m = DM::new(rec);
+    m.rec.pinned = true;
+    for i in 0..60u64 {
+        m.load((i as i16) - 30, 1 + i * 1_000_000_007);
+        let b = mk(3 - (i % 7) as i16, 17 + i * 999_999_937);
+        m.add(b, false);
+        m.neg();
+        m.neg();
+        m.sub(b, true);
+        m.mul_i64(3 + (i as i64 % 5), false);
+        m.cmp(b);
+        m.div_i64(7);
+        m.snap((i % 3) as u8, mk(0, 1_000_000_000 * (1 + i)));
+        m.total();
+        m.parts();
+        let _ = g.any_i64(rng);
+    }
+}
